@@ -1803,7 +1803,17 @@ impl KotoVm {
         match function {
             KValue::Function(f) => {
                 if let Some(captures) = f.captures() {
-                    captures.data_mut()[capture_index as usize] = self.clone_register(value);
+                    let value = self.clone_register(value);
+                    match captures.data_mut().get_mut(capture_index as usize) {
+                        Some(capture) => *capture = value,
+                        // A deferred capture can end up being applied to a different function
+                        // than the one it was compiled for (see above)
+                        None => {
+                            return runtime_error!(
+                                "invalid capture index while attempting to capture a value"
+                            );
+                        }
+                    }
                 }
                 Ok(())
             }
